@@ -27,8 +27,8 @@
    corr: the first repeat has the members of the executable model's result where a model is run (15 entries: zoom change, merge,
      neighbourhoods, Get6/8/26, expansion, set helpers, overlap); for the other 12 (line, corridor, key and tile conversions) no model is
      run here and corr = prop. *)
-From Coq Require Import ZArith String List Bool Permutation.
-From SID Require Import Base Str Ids Wire ZoomCore Shift ChangeZoom Merge MergeApi Neighbour Notation SetOps Overlap Determinism.
+From Coq Require Import ZArith String List Bool Permutation Floats.
+From SID Require Import Base Str Ids Wire ZoomCore Shift ChangeZoom Merge MergeApi Neighbour Notation SetOps Overlap QuadkeyConv Tile Determinism.
 Import ListNotations.
 Open Scope string_scope.
 
@@ -49,7 +49,7 @@ Definition item_key (v : val) : option string :=
   | VL [VS h; ps] => match as_LS ps with Some l => Some (h ++ "|" ++ String.concat "," (sort_strings l)) | None => None end
   | _ => None
   end.
-Definition decode (v : val) : option res :=
+Definition decode_res (v : val) : option res :=
   match v with
   | VE _ => Some RErr
   | VPanic | VTimeout | VZ _ | VS _ | VF _ | VB _ => None
@@ -81,7 +81,7 @@ Proof. destruct r1, r2; reflexivity. Qed.
 Lemma set_nf_eqb r1 r2 : nf_eqb (set_nf r1) (set_nf r2) = res_same_set r1 r2.
 Proof. destruct r1, r2; reflexivity. Qed.
 
-Definition decode_all (l : list val) : option (list res) := all_opt (map decode l).
+Definition decode_all (l : list val) : option (list res) := all_opt (map decode_res l).
 
 (* need = some input list has two or more entries: then at least one permuted and one duplicated run must have been made *)
 Definition nonempty {A} (l : list A) : bool := match l with [] => false | _ => true end.
@@ -215,6 +215,96 @@ Definition m_strs2 (f : list string -> list string -> list string) (a : list val
   end.
 Definition idord (l : list string) : list string := l.
 
+(* ---- key conversions (QuadkeyConv.v, C11/C12), tile conversions (Tile.v, C13), per-axis helpers (ZoomCore, C03) ---- *)
+(* a group is reported by the invoker as [header; pairs] with header "hz/vz/=" when the group carries the request's parameters
+   unchanged (anything else is spelled out and cannot match), a pair as "quadkey,vertical" *)
+Definition pair_str (p : QuadkeyConv.pair) : string := (print (fst p) ++ "," ++ print (snd p))%string.
+Definition group_flat {P} (g : group P) : list string :=
+  let h := (print (g_hz g) ++ "/" ++ print (g_vz g) ++ "/=")%string in map (fun p => (h ++ "|" ++ pair_str p)%string) (g_pairs g).
+Definition of_groups {P} (r : result (list (group P))) : res :=
+  match r with Ok gs => let f := flat_map group_flat gs in ROk f f | Err => RErr end.
+(* Some true: index form (maxHeight = minHeight); Some false: refused (maxHeight < minHeight or NaN); None: a height range, the
+   binary-subdivision form of C17 (float model with oracles): no model is run here *)
+Definition height_mode (mx mn : float) : option bool :=
+  if (mx =? mn)%float then Some true else if (mn <? mx)%float then None else Some false.
+Definition sane_ids (ids : list string) : bool :=
+  forallb (fun s => match parse_eid s with Some i => small_eid i | None => true end) ids.
+Definition m_e2q (sid : bool) (a : list val) : option res :=
+  match a with
+  | [l; VZ oh; VZ ov; VF mx; VF mn] =>
+      match as_LS l, height_mode mx mn with
+      | Some ids, Some idx =>
+          if sid then match sids_to_eids ids with
+                      | Ok e => if sane_ids e then Some (of_groups (s2q tt idx ids oh ov)) else None
+                      | Err => Some RErr
+                      end
+          else if sane_ids ids then Some (of_groups (e2q tt idx ids oh ov)) else None
+      | _, _ => None
+      end
+  | _ => None
+  end.
+Definition m_e2qa (a : list val) : option res :=
+  match a with
+  | [l; VZ oq; VZ oa; VZ E; VZ zo] =>
+      match as_LS l with
+      | Some ids => if sane_ids ids && (Z.abs oa <? 64)%Z && (Z.abs E <? 64)%Z then Some (of_groups (e2qa ids oq oa E zo)) else None
+      | None => None
+      end
+  | _ => None
+  end.
+Definition dec_item (v : val) : option qitem :=
+  match v with
+  | VL [VZ z; VZ k; VZ vz; VZ vi; VF mx; VF mn] =>
+      match height_mode mx mn with Some idx => Some (mkq z k vz vi idx) | None => None end
+  | _ => None
+  end.
+Definition dec_items (v : val) : option (list qitem) := match as_L v with Some l => all_opt (map dec_item l) | None => None end.
+Definition small_item (it : qitem) : bool := (Z.abs (qz it) <? 64)%Z && (Z.abs (qvz it) <? 64)%Z && (Z.abs (qvi it) <? 2 ^ 40)%Z.
+Definition m_q2e (sid : bool) (a : list val) : option res :=
+  match a with
+  | [its; VZ oh; VZ ov] => if sid then None else
+      match dec_items its with Some items => if forallb small_item items then Some (of_result (q2e items oh ov)) else None | None => None end
+  | [its; VZ z] => if sid then
+      match dec_items its with Some items => if forallb small_item items then Some (of_result (q2s items z)) else None | None => None end
+      else None
+  | _ => None
+  end.
+Definition dec_tile (v : val) : option tile :=
+  match v with
+  | VL [VZ h; VZ x; VZ y; VZ vz; VZ z] => match new_tile h x y vz z with Ok t => Some t | Err => None end
+  | _ => None
+  end.
+Definition dec_tiles (v : val) : option (list tile) := match as_L v with Some l => all_opt (map dec_tile l) | None => None end.
+Definition small_tile (t : tile) : bool := (Z.abs (tx t) <? 2 ^ 40)%Z && (Z.abs (ty t) <? 2 ^ 40)%Z && (Z.abs (tz t) <? 2 ^ 40)%Z.
+Definition m_tiles (spatial : bool) (a : list val) : option res :=
+  match a with
+  | [ts; VZ E; VZ zo; VZ ov] =>
+      match dec_tiles ts with
+      | Some l =>
+          if forallb small_tile l && (Z.abs E <? 64)%Z && (Z.abs ov <? 64)%Z then
+            Some (if spatial then of_result (tiles_to_sids l E zo ov)
+                  else of_result (match tiles_to_eids l E zo ov with Ok r => Ok (map print_eid r) | Err => Err end))
+          else None
+      | None => None
+      end
+  | _ => None
+  end.
+Definition small_idx (z : Z) : bool := (Z.abs z <? 2 ^ 36)%Z.
+Definition m_hzoom (a : list val) : option res :=
+  match a with
+  | [VZ zin; VZ x; VZ y; VZ zout] =>
+      if check_zoom zin && check_zoom zout && small_idx x && small_idx y && (zout - zin <=? 6)%Z
+      then Some (let r := hzoom_strs zin x y zout in ROk r r) else None
+  | _ => None
+  end.
+Definition m_vzoom (a : list val) : option res :=
+  match a with
+  | [VZ zin; VZ f; VZ zout] =>
+      if check_zoom zin && check_zoom zout && small_idx f && (zout - zin <=? 12)%Z
+      then Some (let r := vzoom_strs zin f zout in ROk r r) else None
+  | _ => None
+  end.
+
 Definition model_of (fn : string) (a : list val) : option res :=
   if String.eqb fn "ChangeExtendedSpatialIdsZoom" then
     match a with [l; VZ H; VZ V] => match as_LS l with Some sl => m_change_ext sl H V | None => None end | _ => None end
@@ -252,6 +342,15 @@ Definition model_of (fn : string) (a : list val) : option res :=
     match a with [VS x; VS y] => Some (of_bool (sp_overlap x y)) | _ => None end
   else if String.eqb fn "CheckSpatialIdsArrayOverlap" then
     match a with [l1; l2] => match as_LS l1, as_LS l2 with Some s1, Some s2 => Some (of_bool (sp_array s1 s2)) | _, _ => None end | _ => None end
+  else if String.eqb fn "ConvertExtendedSpatialIDsToQuadkeysAndVerticalIDs" then m_e2q false a
+  else if String.eqb fn "ConvertSpatialIDsToQuadkeysAndVerticalIDs" then m_e2q true a
+  else if String.eqb fn "ConvertExtendedSpatialIDsToQuadkeysAndAltitudekeys" then m_e2qa a
+  else if String.eqb fn "ConvertQuadkeysAndVerticalIDsToExtendedSpatialIDs" then m_q2e false a
+  else if String.eqb fn "ConvertQuadkeysAndVerticalIDsToSpatialIDs" then m_q2e true a
+  else if String.eqb fn "ConvertTileXYZsToExtendedSpatialIDs" then m_tiles false a
+  else if String.eqb fn "ConvertTileXYZsToSpatialIDs" then m_tiles true a
+  else if String.eqb fn "HorizontalZoom" then m_hzoom a
+  else if String.eqb fn "VerticalZoom" then m_vzoom a
   else None.
 
 (* ------------------------------------------------------------------------------------------------ the entries *)
@@ -305,10 +404,14 @@ Definition oversize (fn : string) (a : list val) : bool :=
                          end
     | _ => false
     end
+  else if String.eqb fn "HorizontalZoom" then
+    match a with [VZ zin; VZ x; VZ y; VZ zout] => (5 <? zout - zin)%Z || big40 x || big40 y | _ => false end
+  else if String.eqb fn "VerticalZoom" then
+    match a with [VZ zin; VZ f; VZ zout] => (11 <? zout - zin)%Z || big40 f | _ => false end
   else false.
 
 Definition first_rep (obs : val) : option res :=
-  match obs with VL (_ :: VL (r :: _) :: _) => decode r | _ => None end.
+  match obs with VL (_ :: VL (r :: _) :: _) => decode_res r | _ => None end.
 Definition res_val (r : res) : val := match r with RErr => VE VNil | ROk f _ => of_LS f end.
 
 (* some permutable list argument has two or more entries *)
@@ -348,6 +451,8 @@ Definition table_C16 : table :=
     det "ConvertTileXYZsToExtendedSpatialIDs" true [0%nat];
     det "ConvertExtendedSpatialIDToSpatialIDs" true [];
     det "Unique" true [0%nat]; det "Union" true [0%nat; 1%nat];
+    (* exported per-axis helpers of the zoom change: one ID, repeats and decoys only *)
+    det "HorizontalZoom" true []; det "VerticalZoom" true [];
     (* not documented as de-duplicated: fixed-size stencils (members coincide on a grid narrower than the stencil), expansions of
        several tiles, filters that keep the multiplicity of one argument, boolean answers *)
     det "Get6spatialIdsAdjacentToFaces" false []; det "Get8spatialIdsAroundHorizontal" false []; det "Get26spatialIdsAroundVoxel" false [];
